@@ -194,6 +194,9 @@ fn bounded_views<S: SnapshotBounded>(
         obs.probe(P_BOTH_SLICES);
     }
     for i in 0..want.len() {
+        if i >= a.len() {
+            obs.probe(P_GET_WRAPPED);
+        }
         let g = rb.get(i).copied();
         check_eq!(obs, g, Some(want[i]), "bounded.get", "get({}) of {} live", i, want.len());
     }
